@@ -16,10 +16,94 @@ from structsym import *  # noqa
 import structsym  # noqa
 
 
+class PieceStr(StrZ):
+    """A string given as a sequence of pieces of known length: literal text, or a symbolic piece (z3 string term of fixed
+    length whose characters are letters, digits or '/'). Searching for text that contains '{', '}' or ':' and slicing at
+    constant offsets are decided on the structure, so that the z3 queries only see SubString at constant offsets."""
+    __slots__ = ("pieces",)
+
+    def __init__(self, pieces):
+        self.pieces = [p for p in pieces if p[1] > 0]      # (python str | z3 term, length)
+        parts = [z3.StringVal(p) if isinstance(p, str) else p for p, _ in self.pieces]
+        super().__init__(z3.StringVal("") if not parts else parts[0] if len(parts) == 1 else z3.Concat(*parts))
+
+    def total(self):
+        return sum(n for _, n in self.pieces)
+
+    def char_at(self, i):
+        """python char if position i is literal, else None (a symbolic letter / digit / slash)"""
+        for p, n in self.pieces:
+            if i < n:
+                return p[i] if isinstance(p, str) else None
+            i -= n
+        raise IndexError
+
+    def find(self, needle, start=0):
+        """first index >= start at which `needle` occurs, or -1; needle characters outside [A-Z0-9/] never match a symbolic one"""
+        tot = self.total()
+        for pos in range(start, tot - len(needle) + 1):
+            ok = True
+            for k, ch in enumerate(needle):
+                c = self.char_at(pos + k)
+                if c is None:
+                    if ch.isalnum() or ch == "/":
+                        raise Unsupported("searching for %r would have to look inside a symbolic piece" % needle)
+                    ok = False
+                    break
+                if c != ch:
+                    ok = False
+                    break
+            if ok:
+                return pos
+        return -1
+
+    def slice(self, a, b):
+        out, off = [], 0
+        for p, n in self.pieces:
+            lo, hi = max(a, off), min(b, off + n)
+            if lo < hi:
+                out.append((p[lo - off:hi - off], hi - lo) if isinstance(p, str) else
+                           ((p if (lo == off and hi == off + n) else z3.SubString(p, lo - off, hi - lo)), hi - lo))
+            off += n
+        return PieceStr(out)
+
+
 class HdrMachine(StructMachine):
     def __init__(self, prog):
         super().__init__(prog, K=1)
         self.written = []
+
+    def builtin_method(self, recv, meth, args, e, fr, guard):
+        if isinstance(recv, PieceStr):
+            if meth == "len":
+                return recv.total()
+            if meth == "is_empty":
+                return recv.total() == 0
+            if meth == "contains" and args and isinstance(args[0], str):
+                return recv.find(args[0]) >= 0
+            if meth == "find" and args and isinstance(args[0], str):
+                i = recv.find(args[0])
+                return Opt(i >= 0, i if i >= 0 else 0)
+            if meth == "starts_with" and args and isinstance(args[0], str) and not any(c.isalnum() or c == "/" for c in args[0]):
+                return recv.find(args[0]) == 0
+            if meth in ("to_string", "to_owned", "clone", "as_str", "trim") and all(
+                    not isinstance(p, str) or p == p.strip() for p, _ in (recv.pieces[:1] + recv.pieces[-1:])):
+                return recv
+        return super().builtin_method(recv, meth, args, e, fr, guard)
+
+    def ev_index(self, e, fr, guard):
+        base = self.eval(e["base"], fr, guard)
+        idx = e["index"]
+        if isinstance(base, PieceStr) and idx["k"] == "range":
+            a = self.eval(idx["start"], fr, guard) if idx.get("start") is not None else 0
+            b = self.eval(idx["end"], fr, guard) if idx.get("end") is not None else base.total()
+            if isinstance(a, int) and isinstance(b, int):
+                if idx.get("closed"):
+                    b += 1
+                if not 0 <= a <= b <= base.total():
+                    raise Unsupported("slice [%d..%d] of a %d-character header text: the real code panics here" % (a, b, base.total()))
+                return base.slice(a, b)
+        return super().ev_index(e, fr, guard)
 
     def display_of(self, v, fr):
         return _display_of(self, v, fr)
@@ -123,6 +207,108 @@ def roundtrip(prog, ty, maxlen, timeout_ms=60000):
                 rec["detail"] = "real parser rejects the witness"
         res.append(rec)
     return res
+
+
+ALNUM = z3.Union(z3.Range("A", "Z"), z3.Range("0", "9"))
+XCLS = z3.Union(ALNUM, z3.Re("/"))
+
+# documented shapes of the structured block-3 / block-5 tags, as pieces: ("a", n) = n letters or digits, ("x", n) = n letters,
+# digits or slashes, a python string = literal text. (Written from the tag descriptions in the struct documentation.)
+DOCUMENTED_SHAPES = {
+    ("UserHeader", "106"): [[("x", 28)]],
+    ("UserHeader", "423"): [[("a", 12)], [("a", 14)]],
+    ("UserHeader", "165"): [[("a", 3)], [("a", 3), "/", ("x", 1)], [("a", 3), "/", ("x", 7)]],
+    ("UserHeader", "433"): [[("a", 3)], [("a", 3), "/", ("x", 1)], [("a", 3), "/", ("x", 7)]],
+    ("UserHeader", "434"): [[("a", 3)], [("a", 3), "/", ("x", 1)], [("a", 3), "/", ("x", 7)]],
+    ("Trailer", "PDE"): [[], [("a", 4)], [("a", 4), ("a", 6), ("x", 12), ("a", 4), ("a", 6)]],
+    ("Trailer", "PDM"): [[], [("a", 4)], [("a", 4), ("a", 6), ("x", 12), ("a", 4), ("a", 6)]],
+    ("Trailer", "MRF"): [[("a", 6), ("a", 4), ("a", 6), ("x", 12), ("a", 4), ("a", 6)]],
+    ("Trailer", "SYS"): [[], [("a", 4)], [("a", 4), ("a", 6), ("x", 12), ("a", 4), ("a", 6)]],
+}
+# other lengths of the same tags (not a documented shape): must not be partly read
+OTHER_SHAPES = {
+    ("UserHeader", "106"): [[("x", 10)], [("x", 27)]],
+    ("UserHeader", "423"): [[("a", 5)], [("a", 11)]],
+    ("UserHeader", "165"): [[("x", 2)], [("x", 4)], [("x", 8)]],
+    ("UserHeader", "433"): [[("x", 2)], [("x", 4)], [("x", 8)]],
+    ("UserHeader", "434"): [[("x", 2)], [("x", 4)], [("x", 8)]],
+}
+PLAIN_LENGTHS = (1, 4, 16)
+
+
+def tag_roundtrip(prog, timeout_ms=60000):
+    """Block 3 / block 5 holding ONE recognised tag: Display(parse(text)) == text, parse and Display executed from source on
+    a text whose tag value is symbolic (fixed length per query, characters letters / digits / slash)."""
+    from common import replay_batch
+    res = []
+    for ty in ("UserHeader", "Trailer"):
+        sd = prog.structs[ty]
+        parse = prog.method(ty, "parse")
+        for f in sd["fields"]:
+            doc = " ".join(f["meta"].get("doc", []))
+            mt = re.match(r"\s*(?:Tag\s+)?([0-9]{3}|[A-Z]{3})\s+-", doc)
+            if not mt:
+                continue
+            tag = mt.group(1)
+            fty = f["ty"].replace(" ", "")
+            cases = []
+            if fty == "Option<bool>":
+                cases.append(("empty tag", None, "documented"))
+            elif (ty, tag) in DOCUMENTED_SHAPES:
+                cases += [("documented shape %s" % shape_name(sh), sh, "documented") for sh in DOCUMENTED_SHAPES[(ty, tag)]]
+                cases += [("other shape %s" % shape_name(sh), sh, "other") for sh in OTHER_SHAPES.get((ty, tag), [])]
+            else:
+                cases += [("value of %d characters" % n, [("x", n)], "documented") for n in PLAIN_LENGTHS]
+            for cname, shape, kind in cases:
+                m = HdrMachine(prog)
+                pieces, syms = [], []
+                if shape is None:
+                    pieces = [("{%s}" % tag, len(tag) + 2)]
+                else:
+                    pieces.append(("{%s:" % tag, len(tag) + 2))
+                    for k, p in enumerate(shape):
+                        if isinstance(p, str):
+                            pieces.append((p, len(p)))
+                        else:
+                            v = z3.String("v%d" % k)
+                            m.constraints += [z3.Length(v) == p[1], z3.InRe(v, z3.Star(ALNUM if p[0] == "a" else XCLS))]
+                            pieces.append((v, p[1]))
+                            syms.append(v)
+                    pieces.append(("}", 1))
+                text = PieceStr(pieces)
+                q = "%s tag %s, %s: Display(parse(text)) reproduces the text" % ("block 3" if ty == "UserHeader" else "block 5", tag, cname)
+                rec = {"type": ty, "query": q, "tag": tag, "kf": "%s-%s" % ("parse-drops" if kind == "documented" else "wrong-shape-partly-read", tag)}
+                t0 = time.time()
+                try:
+                    r1, _ = m.call_fn(parse[0], [text], True, self_ty=ty)
+                    if not isinstance(r1, Res) or r1.val is None:
+                        raise Unsupported("parse did not return a Result with a value")
+                    o1 = _display_of(m, r1.val, None).s
+                except Unsupported as e:
+                    rec.update({"verdict": "not-encoded", "detail": str(e)[:300], "time_s": 0})
+                    res.append(rec)
+                    continue
+                s = z3.Solver()
+                s.set("timeout", timeout_ms)
+                s.add(*m.constraints)
+                s.add(B(r1.ok), o1 != text.s)
+                r = s.check()
+                rec.update({"verdict": str(r), "time_s": round(time.time() - t0, 2)})
+                if r == z3.sat:
+                    t = structsym._zstr(s.model().eval(text.s, model_completion=True))
+                    real = replay_batch([{"op": "header_roundtrip", "type": ty, "text": t}], "dev")[0]
+                    rec["witness"] = {"type": ty, "text": t, "real": real}
+                    if real.get("ok") and real.get("text") != t:
+                        rec["witness"]["why"] = "%s %r is accepted and written back as %r" % (ty, t, real.get("text"))
+                    else:
+                        rec["verdict"] = "sat-not-reproduced"
+                        rec["detail"] = str(real)[:200]
+                res.append(rec)
+    return res
+
+
+def shape_name(sh):
+    return "".join(p if isinstance(p, str) else "%d%s" % (p[1], p[0]) for p in sh) or "(empty)"
 
 
 def contains_lit(term, lit):
@@ -232,6 +418,7 @@ def run(timeout_ms=60000):
             res.append(rec)
     for ty, maxlen in (("BasicHeader", 26), ("ApplicationHeader", 48)):
         res += roundtrip(prog, ty, maxlen)
+    res += tag_roundtrip(prog, timeout_ms)
     return res
 
 
